@@ -89,7 +89,7 @@ def run_tlc(workdir, module, cfg=None, workers=None, timeout=3600, extra=(), fil
     cmd = ["timeout", str(timeout), "java", "-XX:+UseParallelGC", "-Xss256m", "-Xmx%dg" % int(os.environ.get("VERIF_TLC_GB", "8"))]
     cmd += list(jvm)
     cmd += ["-cp", "/opt/veriftools/tla/tla2tools.jar:/opt/veriftools/tla/CommunityModules-deps.jar",
-            "tlc2.TLC", "-workers", str(workers or NCPU), "-metadir", meta, "-noGenerateSpecTE",
+            "tlc2.TLC", "-workers", str(workers or NCPU), "-metadir", meta, "-noGenerateSpecTE", "-maxSetSize", "50000000",
             "-config", (cfg or module) + ".cfg"]
     cmd += list(extra) + [module + ".tla"]
     t0 = time.time()
